@@ -33,6 +33,10 @@ static void ctx_dtor(void *data) {
     M_DEBUG("Ctx '%s' dtor.\n", context->name);
 
     deregister_ctx_src(context, &context->tick.src);
+    if (context->thpool) {
+        /* Created by a task registered on a running module while the ctx was not looping */
+        m_thpool_free(&context->thpool, false);
+    }
     m_map_free(&context->modules);
     poll_destroy(&context->ppriv);
     memhook._free(context->ppriv.data);
